@@ -481,6 +481,56 @@ static void buffers(int shard, int nsh) {
   }
 }
 
+// --------------------------------------------------------------------------- C09: degenerate shapes
+// Registries of size 0 (a null pointer; the end of a heap block, so that any read is a red-zone hit) and of size 1, under
+// both managers and the bare registrar: construction and every lookup must stay inside the registry. Built at -O0 as well:
+// an optimiser may delete a dead out-of-bounds load and with it the evidence.
+template <typename ZI, typename MGR, typename REG>
+static void degenerate_one(const char* kind, const ZI* const* full, uint16_t fullSize) {
+  const ZI** heap0 = new const ZI*[1]; heap0[0] = full[0];
+  const ZI* const* shapes[3] = {nullptr, heap0 + 1, full};
+  uint16_t sizes[3] = {0, 0, 1};
+  static const char* names[] = {"", "x", "America/Los_Angeles", "Africa/Abidjan", "Zulu", "\xff"};
+  for (int sh = 0; sh < 3; sh++) {
+    STEP("degenerate kind=%s shape=%d construct", kind, sh);
+    REG reg(sizes[sh], shapes[sh]);
+    MGR mgr(sizes[sh], shapes[sh]);
+    CNT.add("hist.degenerate_registries");
+    for (const char* nm : names) {
+      STEP("degenerate kind=%s shape=%d name=%s", kind, sh, nm);
+      const ZI* zi = reg.getZoneInfoForName(nm);
+      TimeZone tz = mgr.createForZoneName(nm);
+      uint16_t ix = mgr.indexForZoneName(nm);
+      bool want = sizes[sh] == 1 && !strcmp(nm, full[0]->name);
+      CNT.add("hist.degenerate_lookups", 3);
+      if ((zi != nullptr) != want || tz.isError() == want || (ix != 0xffff) != want) { J j; j.str("kind", kind).num("shape", sh).str("name", nm); witness("c09:degenerate-registry-lookup", "lookup on an empty / one-entry registry gives a wrong answer", j); }
+    }
+    for (uint32_t id : {0u, 1u, 0xffffffffu, (uint32_t) full[0]->zoneId}) {
+      STEP("degenerate kind=%s shape=%d id=%u", kind, sh, id);
+      TimeZone tz = mgr.createForZoneId(id); uint16_t ix = mgr.indexForZoneId(id);
+      TimeZoneData d(id); TimeZone tr = mgr.createForTimeZoneData(d);
+      bool want = sizes[sh] == 1 && id == full[0]->zoneId;
+      CNT.add("hist.degenerate_lookups", 3);
+      if (tz.isError() == want || tr.isError() == want || (ix != 0xffff) != want) { J j; j.str("kind", kind).num("shape", sh).num("id", id); witness("c09:degenerate-registry-lookup", "lookup on an empty / one-entry registry gives a wrong answer", j); }
+    }
+    for (uint16_t ix : {(uint16_t) 0, (uint16_t) 1, (uint16_t) 2, (uint16_t) 0x7fff, (uint16_t) 0xffff}) {
+      STEP("degenerate kind=%s shape=%d index=%u", kind, sh, ix);
+      TimeZone tz = mgr.createForZoneIndex(ix);
+      bool want = ix < sizes[sh];
+      CNT.add("hist.degenerate_lookups");
+      if (tz.isError() == want) { J j; j.str("kind", kind).num("shape", sh).num("index", ix); witness("c09:degenerate-registry-lookup", "lookup on an empty / one-entry registry gives a wrong answer", j); }
+      if (want) { g_sink += tz.getUtcOffset(0).toMinutes(); StrPrint sp; tz.printTo(sp); }
+    }
+    if (mgr.registrySize() != sizes[sh]) { J j; j.str("kind", kind).num("shape", sh); witness("c09:degenerate-registry-lookup", "registrySize wrong", j); }
+  }
+  delete[] heap0;
+}
+
+static void degenerate() {
+  degenerate_one<basic::ZoneInfo, BasicZoneManager<1>, BasicZoneRegistrar>("basic", zonedb::kZoneRegistry, zonedb::kZoneRegistrySize);
+  degenerate_one<extended::ZoneInfo, ExtendedZoneManager<2>, ExtendedZoneRegistrar>("extended", zonedbx::kZoneRegistry, zonedbx::kZoneRegistrySize);
+}
+
 int main(int argc, char** argv) {
   Args a(argc, argv);
   std::string mode = a.get("mode");
@@ -511,6 +561,7 @@ int main(int argc, char** argv) {
     for (size_t i = 0; i < zs.size(); i++) if ((int) (i % nsh) == shard) sequences_zone(zs[i], (int) a.num("len", 3));
   } else if (mode == "hostile") { if (shard == 0) abbreviations(); hostile_values(rng, a.num("random", 100000)); }
   else if (mode == "buffers") buffers(shard, nsh);
+  else if (mode == "degenerate") degenerate();
   else { fprintf(stderr, "unknown mode\n"); return 3; }
   CNT.flush();
   return 0;
